@@ -744,6 +744,23 @@ def sib(ctx):
             why = 'plain-only: %s | sync-only: %s' % ('; '.join('%s %s(%s) d%d [%s] x%d' % (k[0], k[1], ', '.join(k[4]), k[2], ','.join(k[3]), n) for k, n in list(d1.items())[:4]),
                                                        '; '.join('%s %s(%s) d%d [%s] x%d' % (k[0], k[1], ', '.join(k[4]), k[2], ','.join(k[3]), n) for k, n in list(d2.items())[:4]))
         out.append(Obl('SIB', unflav(pa['q']).replace('F::', '%s|%s::' % (F.flavour(pa), F.flavour(sy)), 1), sy['span'], 'same program up to Rc/Arc, RefCell/RwLock', ok, why))
+    # signatures of paired functions: same parameter and result types up to flavour / pointer / cell / guard names
+    def tysig(b_):
+        def norm(t_):
+            t_ = normname(t_)
+            t_ = re.sub(r'std::cell::Ref(Mut)?\b', 'GUARD', t_)
+            t_ = re.sub(r'std::sync::RwLock(Read|Write)Guard\b', 'GUARD', t_)
+            return re.sub(r"'\w+", "'_", t_)
+        return [norm(F.types[b_['locals'][i]]['s']) for i in range(0, b_['argc'] + 1)]
+    for pa, sy in ps:
+        if pa['kind'] == 'Closure':
+            continue
+        fa_ = F.fns.get(pa['q'], {})
+        if not (fa_.get('vis') == 'Public' or pa['impl_trait']):
+            continue
+        ta_, ts_ = tysig(pa), tysig(sy)
+        out.append(Obl('SIB-SIG', unflav(pa['q']).replace('F::', '%s|%s::' % (F.flavour(pa), F.flavour(sy)), 1), sy['span'], 'same signature up to Rc/Arc, RefCell/RwLock', ta_ == ts_,
+                       'ok' if ta_ == ts_ else 'plain (%s) -> %s vs sync (%s) -> %s' % (', '.join(ta_[1:]), ta_[0], ', '.join(ts_[1:]), ts_[0])))
     # error sets and footprints of the public node operations
     for a, s in SIB.items():
         Ma, Ms = model(ctx, a), model(ctx, s)
@@ -846,6 +863,11 @@ def sib(ctx):
                 same = sorted(pa_) == sorted(ps_)
                 out.append(Obl('SIB-IMPL', '%s|%s %s for %s' % (a, s, x[1].split('::')[-1], x[0]), '-', 'trait impl present on both sides with the same bounds', same,
                                'ok' if same else 'bounds differ: plain %s vs sync %s' % ([sorted(set(p) - set(q)) for p, q in zip(pa_, ps_)], [sorted(set(q) - set(p)) for p, q in zip(pa_, ps_)])))
+            elif x[1] in ('std::iter::FusedIterator', 'std::iter::TrustedLen', 'std::marker::Copy'):
+                # traits std specialises on: `.fuse()`, collect() sizing, bitwise copies of *existing* programs
+                # behave differently when only one flavour has the impl
+                out.append(Obl('SIB-IMPL', '%s|%s %s for %s' % (a, s, x[1].split('::')[-1], x[0]), '-', 'no one-sided impl of a trait that changes how std adaptors treat the type', False,
+                               'impl %s for %s exists only in %s' % (x[1], x[0], a if x in ta else s)))
             elif x[1] == 'std::ops::Drop':
                 # Drop is not an optional API: it runs in every program that uses the type
                 out.append(Obl('SIB-IMPL', '%s|%s Drop for %s' % (a, s, x[0]), '-', 'no one-sided Drop impl (drop glue runs implicitly in programs common to both flavours)', False,
